@@ -15,7 +15,6 @@ from threading import RLock
 from . import errors
 from ._typing import overload
 from .base import FS
-from .copy import copy_modified_time
 from .enums import ResourceType, Seek
 from .info import Info
 from .mode import Mode
@@ -481,9 +480,6 @@ class MemoryFS(FS):
             # make sure to update the entry name itself (see #509)
             src_entry.name = dst_name
 
-            if preserve_time:
-                copy_modified_time(self, src_path, self, dst_path)
-
     def movedir(self, src_path, dst_path, create=False, preserve_time=False):
         _src_path = self.validatepath(src_path)
         _dst_path = self.validatepath(dst_path)
@@ -522,9 +518,6 @@ class MemoryFS(FS):
             src_dir_entry.remove_entry(src_name)
             # make sure to update the entry name itself (see #509)
             src_entry.name = dst_name
-
-            if preserve_time:
-                copy_modified_time(self, src_path, self, dst_path)
 
     def openbin(self, path, mode="r", buffering=-1, **options):
         # type: (Text, Text, int, **Any) -> BinaryIO
